@@ -134,13 +134,17 @@ def chain_history(app, n, names=None, variant=0, intro_at=None, g2_evolutions=()
     group the evolution targets.  At version `intro_at` the model Tag (group G2)
     appears as a NEW model without an evolution; the evolutions listed in
     `g2_evolutions` target Tag only."""
-    names = names or Names(models={'A': 'Item', 'B': 'Tag', 'C': 'Zed'},
+    names = names or Names(models={'A': 'Item', 'B': 'Tag', 'C': 'Zed', 'D': 'Zref'},
                            fields={'id': 'id', 'f': 'name', 'g': 'g', 'h': 'h',
                                    'k': 'k', 'f1': 'f1', 'f2': 'f2', 'f3': 'f3',
                                    'f4': 'f4', 'f5': 'f5', 't': 'title'},
                            app=app)
     base = {'A': model('A', {'f': fld('Char', max_length=20)},
                        ut=[['f']] if variant == 2 else None)}
+    if variant == 3:
+        # a model of the app refers to the model that evolution 2 renames (to a new table): the
+        # referrer's foreign key follows the table, as it does in a fresh install
+        base['D'] = model('D', {'k': fld('FK', rel='A')})
     evolutions = []
     intro = {}
     last = {'A': None, 'B': None, 'C': None}    # (field, is_char) last added per group model
